@@ -161,14 +161,28 @@ def value_is_table_lookup(prog, func, expr, table):
     return _is_lookup(prog, func, expr, table)
 
 
-def _is_lookup(prog, func, expr, table):
+def _is_lookup(prog, func, expr, table, depth=0):
     if isinstance(expr, ast.Subscript):
         base = expr
         while isinstance(base, ast.Subscript):
             base = base.value
-        tgt = prog.resolve_name_expr(base, func.module)
-        return isinstance(tgt, tuple) and tgt[0] == "binding" and tgt[2] == table
+        if isinstance(base, ast.Name) and depth < 3:
+            # a local that holds (a row of) the table
+            ds = [d for d in local_def(func.node, base.id) if isinstance(d, ast.Assign)]
+            if ds and all(_is_lookup(prog, func, d.value, table, depth + 1) or (
+                    isinstance(d.value, ast.Name) and _names_table(prog, func, d.value, table))
+                    for d in ds):
+                return True
+        return _names_table(prog, func, base, table)
+    if isinstance(expr, ast.Call) and isinstance(expr.func, ast.Attribute) and expr.func.attr == "get":
+        return _is_lookup(prog, func, ast.Subscript(value=expr.func.value, slice=ast.Constant(0),
+                                                    ctx=ast.Load()), table, depth)
     return False
+
+
+def _names_table(prog, func, base, table):
+    tgt = prog.resolve_name_expr(base, func.module)
+    return isinstance(tgt, tuple) and tgt[0] == "binding" and tgt[2] == table
 
 
 def assigned_value(e):
@@ -871,6 +885,10 @@ def rule_S1(ctx):
 def _dict_keys_written(f):
     keys = set()
     for n in ast.walk(f.node):
+        if isinstance(n, ast.Call) and isinstance(n.func, ast.Name) and n.func.id == "dict":
+            for k in n.keywords:
+                if k.arg:
+                    keys.add(k.arg)
         if isinstance(n, ast.Dict):
             for k in n.keys:
                 if isinstance(k, ast.Constant) and isinstance(k.value, str):
